@@ -593,7 +593,11 @@ pub fn run_world<W: World>(
                     let run_seed = run_seed_for(seed, prop, W::NAME, idx);
                     let mut rng = Rng::new(run_seed);
                     let gp = gen_params(prop, run_seed, thorough);
-                    let (cfg, ops) = W::generate(&mut rng, gp);
+                    let generated = std::panic::catch_unwind(std::panic::AssertUnwindSafe(|| W::generate(&mut rng, gp)));
+                    let Ok((cfg, ops)) = generated else {
+                        *det_fail.lock().unwrap() = Some(format!("the generator panicked for run {} (seed {})", idx, run_seed));
+                        continue;
+                    };
                     let want_log = idx < 3;
                     let mut out = exec_once::<W>(&cfg, &ops, prop, known, want_log);
                     // in-process determinism self-check on 1 % of the runs
@@ -639,7 +643,7 @@ pub fn run_world<W: World>(
     agg.replayed_for_determinism += det_count.load(Ordering::Relaxed) as u64;
     if let Some(d) = det_fail.into_inner().unwrap() {
         agg.harness_errors
-            .push(format!("determinism self-check failed: {}", d));
+            .push(format!("self-check failed: {}", d));
     }
 
     let mut world_runs = 0u64;
